@@ -2,7 +2,7 @@
    endpoints in use are those of the latest successful fetch (invariant over
    all histories), a retrying initialisation heals after every finite list of
    failures within a linear bound, the pinned one does not. *)
-From VF Require Import Base.Prelude Model.Discovery Spec.DiscoverySpec.
+From VF Require Import Base.Prelude Model.Discovery Spec.DiscoverySpec Corr.DiscoveryCorr.
 From VFP Require Import ParamsDiscovery.
 From Coq Require Import ZifyBool ZifyNat ZifyN.
 Open Scope Z_scope.
@@ -127,7 +127,8 @@ Lemma inv_step s e : inv s -> inv (step s e).
 Proof.
   destruct s as [m w]. intros [HC HR]. cbn [fst snd] in HC, HR.
   destruct e as [| |d|l h]; cbn [step].
-  - unfold refresh. destruct (m_ready m) eqn:R; [|split; assumption].
+  - unfold refresh. destruct (m_ready m) eqn:R;
+      [|split; cbn [fst snd]; [exact HC|rewrite R; intros X; discriminate]].
     destruct (get_metadata (m_cache m) w) as [[c w1] r] eqn:G.
     destruct (get_metadata_inv _ _ _ _ _ HC G) as [HC' Hr].
     destruct r as [d|]; split; cbn [fst snd m_cache m_ready m_ep]; try exact HC'.
@@ -177,4 +178,457 @@ Proof.
     unfold after_gate. destruct (rq_path rq); cbn [r_location]; try discriminate.
     intros H; inversion H. exists (m_ep (fst s)). split; [apply E; reflexivity|split; reflexivity].
   - destruct (Z.ltb (rq_patience rq) init_wait); discriminate.
+Qed.
+
+(* ------------------------------------------------------------ the retry schedule *)
+
+Definition fcost (T : Z) (f : fault) : Z := cost T (AFault f).
+
+Fixpoint costs (T : Z) (fs : list fault) : Z :=
+  match fs with [] => 0 | f :: r => fcost T f + costs T r end.
+
+Lemma delay_nonneg i : 0 <= delay i.
+Proof.
+  unfold delay. apply Z.min_glb; [|unfold max_delay, sec; lia].
+  apply Z.mul_nonneg_nonneg; [apply Z.pow_nonneg; lia|unfold base_delay, sec; lia].
+Qed.
+
+Lemma delay_le_max i : delay i <= max_delay.
+Proof. unfold delay. apply Z.le_min_r. Qed.
+
+Lemma delays_from_nonneg left : forall i, 0 <= delays_from i left.
+Proof.
+  induction left as [|l IH]; intros i; cbn [delays_from]; [lia|].
+  pose proof (delay_nonneg i). pose proof (IH (S i)). lia.
+Qed.
+
+Lemma fcost_bounds T f : 0 <= T -> 0 <= fcost T f <= T.
+Proof. intros H. destruct f; cbn; lia. Qed.
+
+Lemma costs_bounds T fs : 0 <= T -> 0 <= costs T fs <= Z.of_nat (length fs) * T.
+Proof.
+  intros H. induction fs as [|f r IH]; cbn [costs length]; [lia|].
+  pose proof (fcost_bounds T f H). rewrite Nat2Z.inj_succ, Z.mul_succ_l. lia.
+Qed.
+
+(* the totalTimeout test inside discoverProviderMetadata does not fire *)
+Definition budget (left i : nat) (elapsed T : Z) : Prop :=
+  match left with
+  | O => True
+  | S l => elapsed + delays_from i l + Z.of_nat l * T <= total_timeout
+  end.
+
+Lemma faults_cons f fs : faults (f :: fs) = AFault f :: faults fs.
+Proof. reflexivity. Qed.
+
+(* What one discoverProviderMetadata call does against a provider that fails
+   `length fs` times and is healthy afterwards. *)
+Lemma discover_loop_faults left : forall i start w fs w' r,
+  w_script w = faults fs -> 0 <= w_timeout w ->
+  budget left i (w_now w - start) (w_timeout w) ->
+  discover_loop left i start w = (w', r) ->
+  w_healthy w' = w_healthy w /\ w_timeout w' = w_timeout w /\
+  if Nat.ltb (length fs) left
+  then r = Some (w_healthy w) /\ w_script w' = []
+       /\ w_hits w' = (w_hits w + N.of_nat (length fs) + 1)%N
+       /\ w_now w' = w_now w + costs (w_timeout w) fs + delays_from i (length fs)
+  else r = None /\ w_script w' = faults (skipn left fs)
+       /\ w_hits w' = (w_hits w + N.of_nat left)%N
+       /\ w_now w' = w_now w + costs (w_timeout w) (firstn left fs) + delays_from i left.
+Proof.
+  induction left as [|l IH]; intros i start w fs w' r HS HT HB; cbn [discover_loop].
+  - intros H; inversion H; subst w' r. cbn [Nat.ltb Nat.leb skipn firstn costs delays_from].
+    repeat split; try assumption; lia.
+  - cbn [budget] in HB.
+    pose proof (delays_from_nonneg l i) as Dn.
+    assert (Ln : 0 <= Z.of_nat l * w_timeout w) by (apply Z.mul_nonneg_nonneg; lia).
+    replace (Z.ltb total_timeout (w_now w - start)) with false by (symmetry; apply Z.ltb_ge; lia).
+    unfold fetch. rewrite HS. destruct fs as [|f fs'].
+    + cbn [faults map]. intros H; inversion H; subst w' r.
+      cbn [length Nat.ltb Nat.leb w_healthy w_timeout w_script w_hits w_now costs delays_from].
+      repeat split; lia.
+    + rewrite faults_cons. intros H.
+      eapply IH in H; cycle 1.
+      * cbn [sleep w_script]. reflexivity.
+      * cbn [sleep w_timeout]. exact HT.
+      * cbn [sleep w_timeout w_now]. destruct l as [|l']; cbn [budget]; [exact I|].
+        cbn [delays_from] in HB. rewrite Nat2Z.inj_succ, Z.mul_succ_l in HB.
+        pose proof (fcost_bounds (w_timeout w) f HT) as Fb. unfold fcost in Fb. lia.
+      * cbn [sleep w_healthy w_timeout w_script w_hits w_now] in H.
+        destruct H as [H1 [H2 H3]]. split; [exact H1|split; [exact H2|]].
+        change (Nat.ltb (length (f :: fs')) (S l)) with (Nat.ltb (length fs') l).
+        destruct (Nat.ltb (length fs') l);
+          destruct H3 as [Hr [Hs [Hh Hn]]]; (split; [exact Hr|split; [exact Hs|split]]);
+          cbn [length skipn firstn costs delays_from]; unfold fcost; lia.
+Qed.
+
+Definition budget_ok (T : Z) : bool :=
+  Z.leb (delays_from 0 (pred max_retries) + Z.of_nat (pred max_retries) * T) total_timeout.
+
+Lemma budget_of_ok T : budget_ok T = true -> budget max_retries 0 0 T.
+Proof.
+  unfold budget_ok. intros H. apply Z.leb_le in H.
+  destruct max_retries as [|l]; cbn [budget pred] in *; [exact I|lia].
+Qed.
+
+Lemma budget_ok_mono T T0 : 0 <= T <= T0 -> budget_ok T0 = true -> budget_ok T = true.
+Proof.
+  unfold budget_ok. intros HT H. apply Z.leb_le in H. apply Z.leb_le.
+  assert (Z.of_nat (pred max_retries) * T <= Z.of_nat (pred max_retries) * T0)
+    by (apply Z.mul_le_mono_nonneg_l; lia).
+  lia.
+Qed.
+
+Lemma budget_ok_71s : budget_ok (71 * sec) = true.
+Proof. vm_compute. reflexivity. Qed.
+
+(* GetMetadata on an empty cache *)
+Lemma get_metadata_empty c w : mc_doc c = None ->
+  get_metadata c w =
+  let '(w1, r) := discover w in
+  match r with
+  | None => (c, w1, None)
+  | Some d => (mkMc (Some d) (w_now w1 + cache_ttl), w1, Some d)
+  end.
+Proof.
+  intros H. unfold get_metadata, cache_valid. rewrite H. reflexivity.
+Qed.
+
+(* side conditions of the bound, decided on the measured retry constants *)
+Definition schedule_ok : bool :=
+  Nat.leb 1 max_retries
+  && Z.leb (delays_from 0 max_retries + max_delay) (Z.of_nat max_retries * heal_rate)
+  && forallb (fun j => Z.leb (delays_from 0 j) (Z.of_nat j * heal_rate)) (seq 0 (S max_retries)).
+
+Lemma schedule_ok_holds : schedule_ok = true.
+Proof. vm_compute. reflexivity. Qed.
+
+Lemma schedule_facts :
+  (1 <= max_retries)%nat
+  /\ delays_from 0 max_retries + max_delay <= Z.of_nat max_retries * heal_rate
+  /\ forall j, (j <= max_retries)%nat -> delays_from 0 j <= Z.of_nat j * heal_rate.
+Proof.
+  pose proof schedule_ok_holds as H. unfold schedule_ok in H.
+  apply andb_prop in H. destruct H as [H H3]. apply andb_prop in H. destruct H as [H1 H2].
+  apply Nat.leb_le in H1. apply Z.leb_le in H2. split; [exact H1|split; [exact H2|]].
+  intros j Hj. rewrite forallb_forall in H3. apply Z.leb_le. apply H3. apply in_seq. lia.
+Qed.
+
+Lemma heal_bound_split (a b : nat) c : (b <= a)%nat ->
+  heal_bound a c = heal_bound b c + heal_bound (a - b) c.
+Proof. intros H. unfold heal_bound. rewrite Nat2Z.inj_sub by exact H. ring. Qed.
+
+(* the schedule is bounded by the linear B *)
+Lemma sched_bounds fuel : forall k n T, 0 <= T -> 0 <= sched fuel k n T <= heal_bound n T.
+Proof.
+  destruct schedule_facts as [R1 [R2 R3]].
+  induction fuel as [|f IH]; intros k n T HT; cbn [sched].
+  - unfold heal_bound, heal_rate, sec. nia.
+  - destruct (Nat.ltb n max_retries) eqn:LT.
+    + apply Nat.ltb_lt in LT. pose proof (R3 n ltac:(lia)). pose proof (delays_from_nonneg n 0).
+      assert (0 <= Z.of_nat n * T) by (apply Z.mul_nonneg_nonneg; lia).
+      unfold heal_bound. rewrite Z.mul_add_distr_l. lia.
+    + apply Nat.ltb_ge in LT. specialize (IH (S k) (n - max_retries)%nat T HT).
+      pose proof (delay_nonneg k). pose proof (delay_le_max k).
+      pose proof (delays_from_nonneg max_retries 0).
+      assert (0 <= Z.of_nat max_retries * T) by (apply Z.mul_nonneg_nonneg; lia).
+      rewrite (heal_bound_split n max_retries) by exact LT.
+      unfold heal_bound at 1. rewrite Z.mul_add_distr_l. lia.
+Qed.
+
+Lemma heal_time_linear n T : 0 <= T -> 0 <= heal_time n T <= heal_bound n T.
+Proof. apply sched_bounds. Qed.
+
+(* The repaired loop, from an empty cache, against `length fs` failures then a
+   healthy provider: ready, with the healthy document, after exactly
+   length fs + 1 fetches and at most `sched` modelled ns. *)
+Lemma init_loop_heals fuel : forall k m w fs m' w',
+  w_script w = faults fs -> mc_doc (m_cache m) = None ->
+  0 <= w_timeout w -> budget_ok (w_timeout w) = true ->
+  (length fs < fuel)%nat ->
+  init_loop fuel k m w = (m', w') ->
+  m_ready m' = true /\ m_ep m' = w_healthy w
+  /\ w_hits w' = (w_hits w + N.of_nat (length fs) + 1)%N
+  /\ w_now w <= w_now w' <= w_now w + sched fuel k (length fs) (w_timeout w).
+Proof.
+  induction fuel as [|f IH]; intros k m w fs m' w' HS HC HT HB HF; [lia|].
+  cbn [init_loop sched]. rewrite (get_metadata_empty _ _ HC).
+  destruct (discover w) as [w1 r] eqn:D. unfold discover in D.
+  apply (discover_loop_faults max_retries 0 (w_now w) w fs w1 r HS HT) in D;
+    [|rewrite Z.sub_diag; apply budget_of_ok, HB].
+  destruct D as [Dh [Dt D]].
+  pose proof (costs_bounds (w_timeout w) fs HT) as Cb.
+  destruct (Nat.ltb (length fs) max_retries) eqn:LT.
+  - destruct D as [-> [Ds [Dhits Dn]]].
+    intros H; inversion H; subst m' w'. cbn [m_ready m_ep].
+    split; [reflexivity|split; [reflexivity|split; [exact Dhits|]]].
+    pose proof (delays_from_nonneg (length fs) 0). lia.
+  - apply Nat.ltb_ge in LT. destruct D as [-> [Ds [Dhits Dn]]].
+    intros H.
+    eapply (IH (S k) _ _ (skipn max_retries fs)) in H; cycle 1.
+    + cbn [sleep w_script]. exact Ds.
+    + cbn [m_cache]. exact HC.
+    + cbn [sleep w_timeout]. lia.
+    + cbn [sleep w_timeout]. rewrite Dt. exact HB.
+    + rewrite skipn_length. destruct schedule_facts as [R1 _]. lia.
+    + cbn [sleep w_healthy w_timeout w_hits w_now] in H. rewrite skipn_length in H.
+      destruct H as [Hr [He [Hh Hn]]].
+      split; [exact Hr|split; [rewrite He; exact Dh|split; [lia|]]].
+      rewrite Dt in Hn.
+      pose proof (costs_bounds (w_timeout w) (firstn max_retries fs) HT) as Cf.
+      rewrite firstn_length_le in Cf by exact LT.
+      pose proof (delay_nonneg k). pose proof (delays_from_nonneg max_retries 0). lia.
+Qed.
+
+Theorem initialize_retrying_heals fs h T :
+  0 <= T -> budget_ok T = true ->
+  let s := initialize_retrying fresh_mw (fresh_world (faults fs) h T) in
+  m_ready (fst s) = true /\ m_ep (fst s) = h
+  /\ w_hits (snd s) = (N.of_nat (length fs) + 1)%N
+  /\ 0 <= w_now (snd s) <= heal_time (length fs) T
+  /\ heal_time (length fs) T <= heal_bound (length fs) T.
+Proof.
+  intros HT HB s. subst s. unfold initialize_retrying.
+  destruct (init_loop _ 0 fresh_mw _) as [m' w'] eqn:E.
+  assert (HL : length (w_script (fresh_world (faults fs) h T)) = length fs).
+  { cbn [fresh_world w_script]. unfold faults. apply map_length. }
+  rewrite HL in E.
+  pose proof (init_loop_heals _ 0 fresh_mw (fresh_world (faults fs) h T) fs m' w'
+                eq_refl eq_refl HT HB (Nat.lt_succ_diag_r _) E) as Q.
+  cbn [fresh_world w_healthy w_hits w_now w_timeout] in Q. cbn [fst snd].
+  destruct Q as [E1 [E2 [E3 E4]]]. fold (heal_time (length fs) T) in E4.
+  pose proof (heal_time_linear (length fs) T HT).
+  split; [exact E1|split; [exact E2|split; [lia|split; lia]]].
+Qed.
+
+(* ------------------------------------------------------------ the pinned initialisation *)
+
+(* shorter than the retry budget: heals in the first GetMetadata *)
+Theorem initialize_pinned_short fs h T :
+  0 <= T -> budget_ok T = true -> (length fs < max_retries)%nat ->
+  let s := initialize_pinned fresh_mw (fresh_world (faults fs) h T) in
+  m_ready (fst s) = true /\ m_ep (fst s) = h /\ 0 <= w_now (snd s) <= heal_bound (length fs) T.
+Proof.
+  intros HT HB HL s. subst s. unfold initialize_pinned.
+  destruct schedule_facts as [R1 [R2 R3]].
+  rewrite get_metadata_empty by reflexivity.
+  destruct (discover _) as [w1 r] eqn:D. unfold discover in D.
+  apply (discover_loop_faults max_retries 0 _ _ fs w1 r) in D; cbn [fresh_world w_script w_timeout w_now w_healthy w_hits] in *;
+    try reflexivity; try assumption; [|rewrite Z.sub_diag; apply budget_of_ok, HB].
+  destruct D as [Dh [Dt D]].
+  replace (Nat.ltb (length fs) max_retries) with true in D by (symmetry; apply Nat.ltb_lt, HL).
+  destruct D as [-> [Ds [Dhits Dn]]]. cbn [fst snd m_ready m_ep].
+  pose proof (costs_bounds T fs HT). pose proof (R3 (length fs) ltac:(lia)).
+  pose proof (delays_from_nonneg (length fs) 0).
+  split; [reflexivity|split; [reflexivity|]]. unfold heal_bound. lia.
+Qed.
+
+(* at least as long as the retry budget: gives up ... *)
+Theorem initialize_pinned_gives_up fs h T :
+  0 <= T -> budget_ok T = true -> (max_retries <= length fs)%nat ->
+  m_ready (fst (initialize_pinned fresh_mw (fresh_world (faults fs) h T))) = false.
+Proof.
+  intros HT HB HL. unfold initialize_pinned.
+  rewrite get_metadata_empty by reflexivity.
+  destruct (discover _) as [w1 r] eqn:D. unfold discover in D.
+  apply (discover_loop_faults max_retries 0 _ _ fs w1 r) in D; cbn [fresh_world w_script w_timeout w_now w_healthy w_hits] in *;
+    try reflexivity; try assumption; [|rewrite Z.sub_diag; apply budget_of_ok, HB].
+  destruct D as [Dh [Dt D]].
+  replace (Nat.ltb (length fs) max_retries) with false in D by (symmetry; apply Nat.ltb_ge, HL).
+  destruct D as [-> _]. reflexivity.
+Qed.
+
+(* ... and nothing that happens afterwards makes it ready *)
+Lemma not_ready_step s e : m_ready (fst s) = false -> m_ready (fst (step s e)) = false.
+Proof.
+  destruct s as [m w]. cbn [fst]. intros H. destruct e as [| |d|l h]; cbn [step fst].
+  - unfold refresh. rewrite H. exact H.
+  - exact H.
+  - exact H.
+  - exact H.
+Qed.
+
+Lemma not_ready_run h : forall s, m_ready (fst s) = false -> m_ready (fst (run s h)) = false.
+Proof.
+  unfold run. induction h as [|e h IH]; intros s H; cbn [fold_left]; [exact H|].
+  apply IH, not_ready_step, H.
+Qed.
+
+Theorem initialize_pinned_never_heals fs h T events :
+  0 <= T -> budget_ok T = true -> (max_retries <= length fs)%nat ->
+  m_ready (fst (run (initialize_pinned fresh_mw (fresh_world (faults fs) h T)) events)) = false.
+Proof.
+  intros HT HB HL. apply not_ready_run, initialize_pinned_gives_up; assumption.
+Qed.
+
+Theorem initialize_heals_measured : init_retries_forever = true ->
+  forall (fs : list fault) (h : doc) (T : Z),
+  0 <= T -> budget_ok T = true ->
+  let s := initialize fresh_mw (fresh_world (faults fs) h T) in
+  m_ready (fst s) = true /\ m_ep (fst s) = h
+  /\ w_hits (snd s) = (N.of_nat (length fs) + 1)%N
+  /\ 0 <= w_now (snd s) <= heal_time (length fs) T
+  /\ heal_time (length fs) T <= heal_bound (length fs) T.
+Proof.
+  intros H fs h T. unfold initialize. rewrite H. apply initialize_retrying_heals.
+Qed.
+
+Theorem pinned_refuted_5 :
+  exists fs : list fault, length fs = 5%nat /\
+  forall (h : doc) (events : list event),
+  m_ready (fst (run (initialize_pinned fresh_mw (fresh_world (faults fs) h (15 * sec))) events)) = false.
+Proof.
+  exists [F500; F503; FRefused; FMalformed; FSlow]. split; [reflexivity|].
+  intros h events. apply not_ready_run. vm_compute. reflexivity.
+Qed.
+
+(* ------------------------------------------------------------ the monitor accepts what the model does *)
+
+Lemma latest_ok_docs log : latest_ok log = hd_error (docs_of log).
+Proof. induction log as [|[f|d] r IH]; cbn; [reflexivity|exact IH|reflexivity]. Qed.
+
+Lemma docs_of_app a b : docs_of (a ++ b) = docs_of a ++ docs_of b.
+Proof.
+  induction a as [|[f|d] r IH]; cbn; [reflexivity|exact IH|rewrite IH; reflexivity].
+Qed.
+
+(* the provider's log only grows *)
+Definition extends (w w' : world) : Prop := exists ext, w_log w' = ext ++ w_log w.
+
+Lemma extends_refl w : extends w w.
+Proof. exists []. reflexivity. Qed.
+
+Lemma extends_trans a b c : extends a b -> extends b c -> extends a c.
+Proof. intros [x Hx] [y Hy]. exists (y ++ x). rewrite Hy, Hx. apply app_assoc. Qed.
+
+Lemma discover_loop_extends left : forall i start w w' r,
+  discover_loop left i start w = (w', r) -> extends w w'.
+Proof.
+  induction left as [|l IH]; intros i start w w' r; cbn [discover_loop].
+  - intros H; inversion H; apply extends_refl.
+  - destruct (Z.ltb total_timeout (w_now w - start)).
+    + intros H; inversion H; apply extends_refl.
+    + destruct (fetch w) as [w1 a] eqn:F. pose proof (fetch_log _ _ _ F) as L.
+      assert (E1 : extends w w1) by (exists [a]; exact L).
+      destruct a as [f|d].
+      * intros H. apply IH in H. apply (extends_trans _ w1); [exact E1|].
+        destruct H as [x Hx]. exists x. exact Hx.
+      * intros H; inversion H; subst. exact E1.
+Qed.
+
+Lemma get_metadata_extends c w c' w' r : get_metadata c w = (c', w', r) -> extends w w'.
+Proof.
+  unfold get_metadata. destruct (cache_valid (w_now w) c).
+  - intros H; inversion H; apply extends_refl.
+  - destruct (discover w) as [w1 r1] eqn:D. unfold discover in D. apply discover_loop_extends in D.
+    destruct r1 as [d|]; [intros H; inversion H; subst; exact D|].
+    destruct (mc_doc c); intros H; inversion H; subst; exact D.
+Qed.
+
+Lemma step_extends s e : extends (snd s) (snd (step s e)).
+Proof.
+  destruct s as [m w]. destruct e as [| |d|l h]; cbn [step snd].
+  - unfold refresh. destruct (m_ready m); [|apply extends_refl].
+    destruct (get_metadata (m_cache m) w) as [[c w1] r] eqn:G. apply get_metadata_extends in G.
+    destruct r; exact G.
+  - apply extends_refl.
+  - exists []. reflexivity.
+  - exists []. reflexivity.
+Qed.
+
+Lemma apply_op_extends s o : extends (snd s) (snd (apply_op s o)).
+Proof. destruct o; cbn [apply_op]; try apply step_extends. apply extends_refl. Qed.
+
+Lemma inv_apply_op s o : inv s -> inv (apply_op s o).
+Proof. intros I. destruct o; cbn [apply_op]; try (apply inv_step; exact I). exact I. Qed.
+
+Lemma nth_error_rev_mid (a r : list doc) d : nth_error (rev (a ++ d :: r)) (length r) = Some d.
+Proof.
+  rewrite rev_app_distr. cbn [rev]. rewrite <- app_assoc.
+  rewrite nth_error_app2 by (rewrite rev_length; lia).
+  rewrite rev_length, Nat.sub_diag. reflexivity.
+Qed.
+
+(* one request served by the model in a state satisfying the invariant passes
+   both per-request clauses, whatever the provider hands out later *)
+Lemma model_req_ok s rq ext : inv s ->
+  closed_ok (model_req s rq) = true
+  /\ endpoint_ok (rev (docs_of (ext ++ w_log (snd s)))) (model_req s rq) = true.
+Proof.
+  destruct s as [m w]. intros [_ HR]. cbn [fst snd] in HR.
+  unfold model_req, closed_ok, endpoint_ok, is_closed. cbn [fst snd oq_ok_after oq_loc oq_status oq_fwd oq_cookies].
+  unfold serve, serve_gate. destruct (m_ready m) eqn:R.
+  - specialize (HR eq_refl). rewrite latest_ok_docs in HR.
+    destruct (docs_of (w_log w)) as [|d0 rest] eqn:DL; [discriminate|].
+    cbn [hd_error] in HR. inversion HR; subst d0.
+    replace (N.eqb (N.of_nat (length (m_ep m :: rest))) 0) with false
+      by (symmetry; apply N.eqb_neq; cbn [length]; lia).
+    split; [reflexivity|].
+    destruct (N.eqb (d_issuer (m_ep m)) 0); [reflexivity|].
+    unfold after_gate. destruct (rq_path rq); cbn [r_location]; try reflexivity.
+    rewrite docs_of_app, DL. rewrite Nnat.Nat2N.id. cbn [length].
+    replace (S (length rest) - 1)%nat with (length rest) by lia.
+    rewrite nth_error_rev_mid.
+    destruct (N.eqb (d_auth (m_ep m)) 0); [reflexivity|apply N.eqb_refl].
+  - destruct (Z.ltb (rq_patience rq) init_wait); cbn; split; try reflexivity;
+      destruct (N.eqb _ 0); reflexivity.
+Qed.
+
+Lemma model_steps_ok ops : forall s steps s1,
+  inv s -> model_steps s ops = (steps, s1) ->
+  extends (snd s) (snd s1)
+  /\ forall ext q, In q (flat_map reqs_of_step steps) ->
+       closed_ok q = true /\ endpoint_ok (rev (docs_of (ext ++ w_log (snd s1)))) q = true.
+Proof.
+  induction ops as [|o r IH]; intros s steps s1 I; cbn [model_steps].
+  - intros H; inversion H; subst. split; [apply extends_refl|intros ext q []].
+  - destruct (model_steps (apply_op s o) r) as [steps' s2] eqn:M.
+    intros H; inversion H; subst steps s1. clear H.
+    destruct (IH _ _ _ (inv_apply_op s o I) M) as [E2 Q2].
+    pose proof (apply_op_extends s o) as E1.
+    split; [apply (extends_trans _ _ _ E1 E2)|].
+    intros ext q. cbn [flat_map reqs_of_step]. rewrite in_app_iff. intros [Hq|Hq].
+    + destruct o as [rq| | | |]; cbn in Hq; try tauto. destruct Hq as [<-|[]].
+      destruct (extends_trans _ _ _ E1 E2) as [x Hx]. rewrite Hx, app_assoc.
+      apply model_req_ok, I.
+    + apply Q2, Hq.
+Qed.
+
+Lemma faults_all_fault fs : forallb is_fault (faults fs) = true.
+Proof. induction fs as [|f r IH]; cbn; [reflexivity|exact IH]. Qed.
+
+Theorem monitor_model fs h T pre ops :
+  0 <= T -> budget_ok T = true ->
+  check_case (model_case (faults fs) h T pre ops) = true.
+Proof.
+  intros HT HB. unfold model_case.
+  set (w := fresh_world (faults fs) h T).
+  set (s0 := initialize_retrying fresh_mw w).
+  assert (I0 : inv s0) by (apply inv_init_loop, inv_fresh).
+  destruct (model_steps s0 ops) as [steps s1] eqn:M.
+  destruct (model_steps_ok ops s0 steps s1 I0 M) as [_ Q].
+  unfold check_case, all_reqs, step_reqs. cbn [dc_pre dc_steps dc_served].
+  apply andb_true_intro. split; [apply andb_true_intro; split|].
+  - apply forallb_forall. intros q Hq. apply in_app_or in Hq. destruct Hq as [Hq|Hq].
+    + apply in_map_iff in Hq. destruct Hq as [rq [<- _]].
+      apply (model_req_ok (fresh_mw, w) rq []), inv_fresh.
+    + apply (Q [] q Hq).
+  - apply forallb_forall. intros q Hq. apply in_app_or in Hq. destruct Hq as [Hq|Hq].
+    + apply in_map_iff in Hq. destruct Hq as [rq [<- _]].
+      pose proof (model_req_ok (fresh_mw, w) rq (w_log (snd s1)) (inv_fresh _ _ _)) as [_ E].
+      cbn [snd fresh_world w_log] in E. subst w. cbn [fresh_world w_log] in E.
+      rewrite app_nil_r in E. exact E.
+    + apply (Q [] q Hq).
+  - unfold heal_applies. cbn [dc_script dc_healthy]. rewrite faults_all_fault. cbn [andb].
+    destruct (full_doc h) eqn:F; [|reflexivity].
+    pose proof (initialize_retrying_heals fs h T HT HB) as Hh. cbv zeta in Hh.
+    fold w in Hh. fold s0 in Hh. destruct Hh as [Hr [He [_ [[Hn0 Hn] _]]]].
+    unfold heal_ok. cbn [dc_ready_ms dc_script dc_timeout dc_direct dc_ready_loc dc_healthy].
+    unfold serving. rewrite Hr, He. unfold full_doc in F. apply andb_prop in F. destruct F as [F1 F2].
+    rewrite F1. cbn [andb orb]. rewrite N.eqb_refl, andb_true_r.
+    unfold faults. rewrite map_length. apply Z.leb_le.
+    unfold heal_allowance_ms. apply Z.div_le_mono; [lia|].
+    assert (heal_time (length fs) T <= heal_time (length fs) T * 9 / 8)
+      by (apply Z.div_le_lower_bound; lia).
+    unfold sec. lia.
 Qed.
